@@ -255,9 +255,9 @@ impl DirectiveName {
             "@here" | "@HERE" => Some(Self::Here),
             "@macro" | "@MACRO" => Some(Self::Macro),
             "@endmacro" | "@ENDMACRO" => Some(Self::EndMacro),
-            "@defl" | "@DEFl" => Some(Self::Defl),
+            "@defl" | "@DEFL" => Some(Self::Defl),
             "@defn" | "@DEFN" => Some(Self::Defn),
-            "@redefl" | "@REDEFl" => Some(Self::ReDefl),
+            "@redefl" | "@REDEFL" => Some(Self::ReDefl),
             "@redefn" | "@REDEFN" => Some(Self::ReDefn),
             "@isdef" | "@ISDEF" => Some(Self::IsDef),
             "@undef" | "@UNDEF" => Some(Self::UnDef),
